@@ -57,7 +57,7 @@ MCActs ==
      \/ \E c \in Clients, o \in Outcomes : Req(c, o) /\ act' = [a |-> "req", c |-> c, o |-> o]
      \/ \E b \in B : \/ Release(b) /\ act' = [a |-> "release", b |-> b]
                      \/ Mark(b) /\ act' = [a |-> "mark", b |-> b]
-                     \/ Add(b) /\ act' = [a |-> "add", b |-> b]
+                     \/ Add(b) /\ act' = [a |-> "add", b |-> b, w |-> Weight[b]]
                      \/ Remove(b) /\ act' = [a |-> "remove", b |-> b]
      \/ \E b \in B, r \in {"ok", "fail"} : SetProbe(b, r) /\ act' = [a |-> "setprobe", b |-> b, r |-> r]
      \/ \E s \in Strategies : SetStrategy(s) /\ act' = [a |-> "strategy", s |-> s]
